@@ -418,3 +418,116 @@ Proof. apply collect_perm. Qed.
 Lemma eventHandlerNames_set {H} (pi1 pi2 : list (str * H)) :
   Permutation pi1 pi2 -> Permutation (eventHandlerNames pi1) (eventHandlerNames pi2).
 Proof. apply collect_perm. Qed.
+
+(* ================================================================== *)
+(* combineTypes: on types without any Fixed flag (literals only, no
+   variables of composite type) it is the join of a semilattice, hence
+   independent of the order of its arguments                            *)
+Fixpoint clean (t : ty) : bool :=
+  match t with
+  | TBase BNone => false
+  | TBase _ => true
+  | TComp _ f s => negb f && clean s
+  | TEmpty _ => true
+  end.
+
+Definition base_eqb (x y : base) : bool := N.eqb (base_code x) (base_code y).
+Lemma base_eqb_eq x y : base_eqb x y = true <-> x = y.
+Proof. destruct x, y; unfold base_eqb; simpl; split; intro; try reflexivity; try discriminate. Qed.
+
+Fixpoint join (a b : ty) : ty :=
+  match a, b with
+  | TBase x, TBase y => if base_eqb x y then a else TAny
+  | TComp ka _ sa, TComp kb _ sb => if Bool.eqb ka kb then TComp ka false (join sa sb) else TAny
+  | TComp ka _ _, TEmpty kb => if Bool.eqb ka kb then a else TAny
+  | TEmpty ka, TComp kb _ _ => if Bool.eqb ka kb then b else TAny
+  | TEmpty ka, TEmpty kb => if Bool.eqb ka kb then a else TAny
+  | _, _ => TAny
+  end.
+
+Lemma chain_nonempty t : chain t <> [].
+Proof. destruct t; simpl; discriminate. Qed.
+
+Lemma chain_none_not_clean s : chain s = [5%N] -> clean s = false.
+Proof.
+  destruct s as [[]|k f s'|k]; simpl; intro H; try discriminate; try reflexivity.
+  destruct k; discriminate.
+Qed.
+
+Lemma chain_inj a : forall b, clean a = true -> clean b = true -> chain a = chain b -> a = b.
+Proof.
+  induction a as [x|ka fa sa IH|ka]; intros [y|kb fb sb|kb] Ca Cb H; simpl in *.
+  - destruct x, y; simpl in H; try discriminate; reflexivity.
+  - destruct x, kb; simpl in H; discriminate.
+  - destruct x, kb; simpl in H; discriminate.
+  - destruct y, ka; simpl in H; discriminate.
+  - apply andb_true_iff in Ca as [Fa Ca]. apply andb_true_iff in Cb as [Fb Cb].
+    destruct fa, fb; try discriminate. inversion H as [[Hk Hs]].
+    assert (ka = kb) by (destruct ka, kb; simpl in Hk; try discriminate; reflexivity). subst.
+    f_equal. apply IH; assumption.
+  - apply andb_true_iff in Ca as [Fa Ca]. inversion H as [[Hk Hs]].
+    rewrite (chain_none_not_clean sa Hs) in Ca. discriminate.
+  - destruct y, ka; simpl in H; discriminate.
+  - apply andb_true_iff in Cb as [Fb Cb]. inversion H as [[Hk Hs]].
+    rewrite (chain_none_not_clean sb (eq_sym Hs)) in Cb. discriminate.
+  - inversion H as [[Hk]]. destruct ka, kb; simpl in Hk; try discriminate; reflexivity.
+Qed.
+
+Lemma teq_clean a b : clean a = true -> clean b = true -> (teq a b = true <-> a = b).
+Proof.
+  intros Ca Cb. unfold teq. rewrite str_eqb_eq. split; [apply chain_inj; assumption | congruence].
+Qed.
+
+Lemma bool_eqb_refl k : Bool.eqb k k = true. Proof. destruct k; reflexivity. Qed.
+Lemma base_eqb_refl x : base_eqb x x = true. Proof. destruct x; reflexivity. Qed.
+
+Lemma join_idem a : clean a = true -> join a a = a.
+Proof.
+  induction a as [x|k f s IH|k]; simpl; intro C.
+  - rewrite base_eqb_refl. reflexivity.
+  - apply andb_true_iff in C as [F C]. destruct f; [discriminate|]. rewrite bool_eqb_refl, IH by assumption. reflexivity.
+  - rewrite bool_eqb_refl. reflexivity.
+Qed.
+
+Lemma join_clean a : forall b, clean a = true -> clean b = true -> clean (join a b) = true.
+Proof.
+  induction a as [x|ka fa sa IH|ka]; intros [y|kb fb sb|kb] Ca Cb; simpl in *; try reflexivity.
+  - destruct (base_eqb x y); [exact Ca | reflexivity].
+  - apply andb_true_iff in Ca as [Fa Ca]. apply andb_true_iff in Cb as [Fb Cb].
+    destruct (Bool.eqb ka kb); [simpl; apply IH; assumption | reflexivity].
+  - destruct (Bool.eqb ka kb); [exact Ca | reflexivity].
+  - destruct (Bool.eqb ka kb); [exact Cb | reflexivity].
+  - destruct (Bool.eqb ka kb); reflexivity.
+Qed.
+
+Lemma join_comm a : forall b, clean a = true -> clean b = true -> join a b = join b a.
+Proof.
+  induction a as [x|ka fa sa IH|ka]; intros [y|kb fb sb|kb] Ca Cb; simpl in *; try reflexivity.
+  - destruct (base_eqb x y) eqn:E.
+    + apply base_eqb_eq in E. subst. rewrite base_eqb_refl. reflexivity.
+    + destruct (base_eqb y x) eqn:E2; [|reflexivity]. apply base_eqb_eq in E2. subst. rewrite base_eqb_refl in E. discriminate.
+  - apply andb_true_iff in Ca as [Fa Ca]. apply andb_true_iff in Cb as [Fb Cb].
+    destruct ka, kb; simpl; try reflexivity; rewrite (IH sb) by assumption; reflexivity.
+  - destruct ka, kb; reflexivity.
+  - destruct ka, kb; reflexivity.
+  - destruct ka, kb; reflexivity.
+Qed.
+
+Lemma join_any_l b : join TAny b = TAny.
+Proof. destruct b as [y| |]; simpl; try reflexivity. destruct (base_eqb BAny y); reflexivity. Qed.
+Lemma join_any_r a : join a TAny = TAny.
+Proof.
+  destruct a as [x| |]; simpl; try reflexivity. destruct (base_eqb x BAny) eqn:E; [|reflexivity].
+  apply base_eqb_eq in E. subst. reflexivity.
+Qed.
+
+Lemma join_assoc a : forall b c, clean a = true -> clean b = true -> clean c = true ->
+  join (join a b) c = join a (join b c).
+Proof.
+  induction a as [x|ka fa sa IH|ka]; intros b c Ca Cb Cc; destruct b as [y|kb fb sb|kb]; destruct c as [z|kc fc sc|kc];
+    simpl in Ca, Cb, Cc;
+    repeat match goal with H : _ && _ = true |- _ => apply andb_true_iff in H as [? ?] end;
+    repeat match goal with x : base |- _ => destruct x end;
+    repeat match goal with k : bool |- _ => destruct k end;
+    simpl; try reflexivity; try congruence; try (rewrite IH by assumption; reflexivity).
+Qed.
